@@ -1,22 +1,11 @@
 package rules
 
 import (
-	"fmt"
 	"go/ast"
-	"go/token"
 	"go/types"
-	"sort"
-	"strings"
 
 	"lachk/core"
 )
-
-var _ = fmt.Sprint
-var _ ast.Node
-var _ token.Pos
-var _ types.Object
-var _ = sort.Strings
-var _ = strings.TrimSpace
 
 // c26VerifyScope: verification has to look at the records of every database the node can open,
 // including database types the current routing table no longer refers to — those are exactly the
@@ -24,43 +13,42 @@ var _ = strings.TrimSpace
 func c26VerifyScope(c *core.Ctx) {
 	c.Clause("C26.verify.scope", func() {
 		gr := c.Fn(mdP + "Producer.getRecords")
-		var outer *ast.RangeStmt
-		gr.InspectOwn(func(n ast.Node) bool {
-			if rs, ok := n.(*ast.RangeStmt); ok && outer == nil {
-				outer = rs
+		resolve := func(e ast.Expr) ast.Expr { return resolveLocal(gr, e) }
+		// the loops around the place where a database's records are read (directly or in a helper),
+		// outermost first: over the producers, then over the names of one producer
+		reads := gr.SitesMay(func(cs *core.CallSite) bool { return cs.Name == mdP+"ReadTablesList" }, 2)
+		c.Need(len(reads) > 0, "getRecords reads the recorded requests (ReadTablesList)")
+		var around []ast.Stmt
+		for _, lp := range c26Loops(gr) {
+			if p := posOf(reads[0]); lp.Pos() <= p && p < lp.End() {
+				around = append(around, lp)
 			}
-			return true
-		})
-		c.Need(outer != nil, "getRecords ranges over the producers")
-		c.Check(fieldNameOf(gr, outer.X) == mdP+"Producer.allProducers", "records are collected from every producer", "T8 coverage", outer.Pos(),
+		}
+		c.Need(len(around) >= 1, "getRecords ranges over the producers")
+		outer, isOuter := core.IterationOf(gr, around[0], resolve)
+		c.Need(isOuter && outer.Coll != nil, "getRecords ranges over the producers")
+		c.Check(fieldNameOf(gr, outer.Coll) == mdP+"Producer.allProducers", "records are collected from every producer", "T8 coverage", outer.Stmt.Pos(),
 			"getRecords ranges over allProducers (all database types given to NewProducer)",
-			"verification collects records only from "+exprStr(outer.X)+": requests recorded in databases of a type the routing table no longer uses are never checked, so Verify accepts although a request moved")
+			"verification collects records only from "+exprStr(outer.Coll)+": requests recorded in databases of a type the routing table no longer uses are never checked, so Verify accepts although a request moved")
 		// every database of each producer is read, and its records are filed under (type, name)
-		var inner *ast.RangeStmt
-		ast.Inspect(outer.Body, func(n ast.Node) bool {
-			if rs, ok := n.(*ast.RangeStmt); ok && inner == nil {
-				inner = rs
-			}
-			return true
-		})
+		var inner *core.Iteration
 		okInner := false
-		if inner != nil {
-			if call, ok := ast.Unparen(inner.X).(*ast.CallExpr); ok && methodNamed(calleeName(gr, call), "Names") {
-				if sel, k := call.Fun.(*ast.SelectorExpr); k && varOf(gr, sel.X) == varOf(gr, outer.Value) {
-					okInner = true
+		if len(around) >= 2 {
+			if in, isIn := core.IterationOf(gr, around[1], resolve); isIn && in.Coll != nil {
+				inner = in
+				if call, ok := ast.Unparen(in.Coll).(*ast.CallExpr); ok && methodNamed(calleeName(gr, call), "Names") {
+					if sel, k := ast.Unparen(call.Fun).(*ast.SelectorExpr); k && outer.IsElem(sel.X, resolve) {
+						okInner = true
+					}
 				}
 			}
 		}
 		c.Check(okInner, "every database of a producer is read", "T8 coverage", gr.Pos(), "ranges over producer.Names()", "not every database of a producer is inspected")
-		_, c1 := loopDone(gr, outer)
-		c2 := true
-		if inner != nil {
-			_, c2 = loopDone(gr, inner)
-		}
-		c.Check(c1 && c2, "record collection loops are complete", "T2 (loop)", gr.Pos(), "left only by returning an error or when exhausted", "record collection can stop early without an error")
+		c.Check(c26FullIteration(outer) && (inner == nil || c26FullIteration(inner)), "record collection loops are complete", "T2 (loop)", gr.Pos(), "left only by returning an error or when exhausted", "record collection can stop early without an error")
 		// constructor: allProducers is the producers argument, not a filtered map
 		np := c.Fn(mdP + "NewProducer")
-		okAll := false
+		okAll, nDef := false, 0
+		isArg := func(e ast.Expr) bool { return e != nil && varOf(np, resolveLocal(np, e)) == np.Param(0) }
 		np.InspectOwn(func(n ast.Node) bool {
 			kv, ok := n.(*ast.KeyValueExpr)
 			if !ok {
@@ -68,12 +56,17 @@ func c26VerifyScope(c *core.Ctx) {
 			}
 			if id, k := kv.Key.(*ast.Ident); k {
 				if v, k2 := np.Info().ObjectOf(id).(*types.Var); k2 && c.P.FieldName(v) == mdP+"Producer.allProducers" {
-					okAll = varOf(np, kv.Value) == np.Param(0)
+					nDef++
+					okAll = isArg(kv.Value)
 				}
 			}
 			return true
 		})
-		c.Check(okAll, "allProducers is the constructor's producers argument", "provenance", np.Pos(), "allProducers: producers", "allProducers does not hold every database type given to NewProducer")
+		for _, a := range assignsToField(np, mdP+"Producer.allProducers") {
+			nDef++
+			okAll = isArg(a.RHS)
+		}
+		c.Check(okAll && nDef == 1, "allProducers is the constructor's producers argument", "provenance", np.Pos(), "allProducers: producers", "allProducers does not hold every database type given to NewProducer")
 		// Verify = getRecords then verifyRecords on its result
 		vf := c.Fn(mdP + "Producer.Verify")
 		g := vf.CallsTo(mdP + "Producer.getRecords")
